@@ -52,6 +52,8 @@ func ctlName(s memcontrolprotocol.State) string { return s.String() }
 type rigOpts struct {
 	slow    bool // slow downstream
 	portBuf int
+	topBuf  int // capacity of the agent's Top port (0: portBuf); 1-2 under back-pressure
+	drvIn   int // capacity of the driver's incoming data buffer (0: 16)
 }
 
 func (r *rig) mkPort(comp messaging.Component, name string, n int) messaging.Port {
@@ -168,6 +170,16 @@ func buildRig(agent string, o rigOpts) *rig {
 		o.portBuf = 4
 	}
 	pb := o.portBuf
+	tb := pb
+	if o.topBuf > 0 {
+		tb = o.topBuf
+	}
+	bufOf := func(port string) int {
+		if port == "Top" {
+			return tb
+		}
+		return pb
+	}
 	memLat := pick(o.slow, 3, 17)
 	var bottoms [][]messaging.Port // extra links: pairs of ports
 	link := func(a, b messaging.Port) { bottoms = append(bottoms, []messaging.Port{a, b}) }
@@ -181,7 +193,7 @@ func buildRig(agent string, o rigOpts) *rig {
 		sp.Capacity = 1 << 20
 		c := idealmemcontroller.MakeBuilder().WithRegistrar(r.regr).WithSpec(sp).
 			WithResources(idealmemcontroller.Resources{Storage: mem.NewStorage(1 << 20)}).Build("Agent")
-		c.AssignPort("Top", r.mkPort(c, "Top", pb))
+		c.AssignPort("Top", r.mkPort(c, "Top", tb))
 		c.AssignPort("Control", r.mkPort(c, "Control", pb))
 		r.name, r.traffic = c.Name(), "mem"
 		r.ctrl, r.top = c.GetPortByName("Control"), c.GetPortByName("Top")
@@ -191,7 +203,7 @@ func buildRig(agent string, o rigOpts) *rig {
 	case "dram":
 		c := dram.MakeBuilder().WithRegistrar(r.regr).
 			WithResources(dram.Resources{Storage: mem.NewStorage(1 << 20)}).Build("Agent")
-		c.AssignPort("Top", r.mkPort(c, "Top", pb))
+		c.AssignPort("Top", r.mkPort(c, "Top", tb))
 		c.AssignPort("Control", r.mkPort(c, "Control", pb))
 		r.name, r.traffic = c.Name(), "mem"
 		r.ctrl, r.top = c.GetPortByName("Control"), c.GetPortByName("Top")
@@ -204,7 +216,7 @@ func buildRig(agent string, o rigOpts) *rig {
 		sp.Capacity = 1 << 20
 		c := simplebankedmemory.MakeBuilder().WithRegistrar(r.regr).WithSpec(sp).
 			WithResources(simplebankedmemory.Resources{Storage: mem.NewStorage(1 << 20)}).Build("Agent")
-		c.AssignPort("Top", r.mkPort(c, "Top", pb))
+		c.AssignPort("Top", r.mkPort(c, "Top", tb))
 		c.AssignPort("Control", r.mkPort(c, "Control", pb))
 		r.name, r.traffic = c.Name(), "mem"
 		r.ctrl, r.top = c.GetPortByName("Control"), c.GetPortByName("Top")
@@ -235,7 +247,7 @@ func buildRig(agent string, o rigOpts) *rig {
 		c := writeback.MakeBuilder().WithRegistrar(r.regr).WithSpec(sp).
 			WithResources(writeback.Resources{AddressToPortMapper: &mem.SinglePortMapper{Port: low.GetPortByName("Top").AsRemote()}}).Build("Agent")
 		for _, n := range []string{"Top", "Bottom", "Control"} {
-			c.AssignPort(n, r.mkPort(c, n, pb))
+			c.AssignPort(n, r.mkPort(c, n, bufOf(n)))
 		}
 		link(c.GetPortByName("Bottom"), low.GetPortByName("Top"))
 		r.name, r.traffic = c.Name(), "mem"
@@ -286,7 +298,7 @@ func buildRig(agent string, o rigOpts) *rig {
 		c := writethroughcache.MakeBuilder().WithRegistrar(r.regr).WithSpec(sp).
 			WithResources(writethroughcache.Resources{AddressMapper: &mem.SinglePortMapper{Port: low.GetPortByName("Top").AsRemote()}}).Build("Agent")
 		for _, n := range []string{"Top", "Bottom", "Control"} {
-			c.AssignPort(n, r.mkPort(c, n, pb))
+			c.AssignPort(n, r.mkPort(c, n, bufOf(n)))
 		}
 		link(c.GetPortByName("Bottom"), low.GetPortByName("Top"))
 		r.name, r.traffic = c.Name(), "mem"
@@ -316,7 +328,7 @@ func buildRig(agent string, o rigOpts) *rig {
 		c := tlb.MakeBuilder().WithRegistrar(r.regr).WithSpec(sp).
 			WithResources(tlb.Resources{TranslationProviderMapper: &mem.SinglePortMapper{Port: low.port.AsRemote()}}).Build("Agent")
 		for _, n := range []string{"Top", "Bottom", "Control"} {
-			c.AssignPort(n, r.mkPort(c, n, pb))
+			c.AssignPort(n, r.mkPort(c, n, bufOf(n)))
 		}
 		link(c.GetPortByName("Bottom"), low.port)
 		r.name, r.traffic = c.Name(), "xlat"
@@ -334,7 +346,7 @@ func buildRig(agent string, o rigOpts) *rig {
 		c := mmuCache.MakeBuilder().WithRegistrar(r.regr).WithSpec(sp).
 			WithResources(mmuCache.Resources{LowModulePort: low.port.AsRemote(), UpModulePort: upPort}).Build("Agent")
 		for _, n := range []string{"Top", "Bottom", "Control"} {
-			c.AssignPort(n, r.mkPort(c, n, pb))
+			c.AssignPort(n, r.mkPort(c, n, bufOf(n)))
 		}
 		link(c.GetPortByName("Bottom"), low.port)
 		r.name, r.traffic = c.Name(), "xlat-unique"
@@ -350,7 +362,7 @@ func buildRig(agent string, o rigOpts) *rig {
 		sp.MaxRequestsInFlight = 2
 		c := mmu.MakeBuilder().WithRegistrar(r.regr).WithSpec(sp).
 			WithResources(mmu.Resources{PageTable: pageTable(64, false)}).Build("Agent")
-		c.AssignPort("Top", r.mkPort(c, "Top", pb))
+		c.AssignPort("Top", r.mkPort(c, "Top", tb))
 		c.AssignPort("Control", r.mkPort(c, "Control", pb))
 		r.name, r.traffic = c.Name(), "xlat"
 		r.ctrl, r.top = c.GetPortByName("Control"), c.GetPortByName("Top")
@@ -367,7 +379,7 @@ func buildRig(agent string, o rigOpts) *rig {
 		c := gmmu.MakeBuilder().WithRegistrar(r.regr).WithSpec(sp).
 			WithResources(gmmu.Resources{PageTable: pageTable(64, true)}).Build("Agent")
 		for _, n := range []string{"Top", "Bottom", "Control"} {
-			c.AssignPort(n, r.mkPort(c, n, pb))
+			c.AssignPort(n, r.mkPort(c, n, bufOf(n)))
 		}
 		link(c.GetPortByName("Bottom"), low.port)
 		r.name, r.traffic = c.Name(), "xlat-unique"
@@ -386,7 +398,7 @@ func buildRig(agent string, o rigOpts) *rig {
 				TranslationProviderMapper: &mem.SinglePortMapper{Port: xl.port.AsRemote()},
 			}).Build("Agent")
 		for _, n := range []string{"Top", "Bottom", "Translation", "Control"} {
-			c.AssignPort(n, r.mkPort(c, n, pb))
+			c.AssignPort(n, r.mkPort(c, n, bufOf(n)))
 		}
 		link(c.GetPortByName("Bottom"), low.GetPortByName("Top"))
 		link(c.GetPortByName("Translation"), xl.port)
@@ -403,7 +415,7 @@ func buildRig(agent string, o rigOpts) *rig {
 		sp.BottomUnit = low.GetPortByName("Top").AsRemote()
 		c := rob.MakeBuilder().WithRegistrar(r.regr).WithSpec(sp).Build("Agent")
 		for _, n := range []string{"Top", "Bottom", "Control"} {
-			c.AssignPort(n, r.mkPort(c, n, pb))
+			c.AssignPort(n, r.mkPort(c, n, bufOf(n)))
 		}
 		link(c.GetPortByName("Bottom"), low.GetPortByName("Top"))
 		r.name, r.traffic = c.Name(), "mem"
@@ -424,7 +436,7 @@ func buildRig(agent string, o rigOpts) *rig {
 				OutsideMapper: &mem.SinglePortMapper{Port: out.GetPortByName("Top").AsRemote()},
 			}).Build("Agent")
 		for _, n := range []string{"Top", "Inside", "Outside", "Control"} {
-			c.AssignPort(n, r.mkPort(c, n, pb))
+			c.AssignPort(n, r.mkPort(c, n, bufOf(n)))
 		}
 		link(c.GetPortByName("Inside"), in.GetPortByName("Top"))
 		link(c.GetPortByName("Outside"), out.GetPortByName("Top"))
@@ -437,7 +449,7 @@ func buildRig(agent string, o rigOpts) *rig {
 		panic("unknown agent " + agent)
 	}
 
-	r.drv = newDriver(r)
+	r.drv = newDriver(r, o.drvIn)
 	r.conn("ConnTop", r.drv.data, r.top)
 	r.conn("ConnCtl", r.drv.ctl, r.ctrl)
 	for i, l := range bottoms {
